@@ -314,7 +314,7 @@ class CellHistories:
     cycle, as tests/test_cells.py does), compared after every step with a fresh Cell built from the
     current cycle (differential oracle). The state key includes the whole instance dictionary, so
     hidden caches cannot be merged away."""
-    OPS = ["area", "sign", "perimeter", "next", "prev", "neighbors", "reverse_inplace", "reverse_assign", "roll", "mirror_x", "swap_two"]
+    OPS = ["area", "sign", "perimeter", "next", "prev", "neighbors", "edges", "vertices", "reverse_inplace", "reverse_assign", "roll", "mirror_x", "swap_two"]
     chunk = 32
 
     def __init__(self, depth):
@@ -345,6 +345,10 @@ class CellHistories:
             cell.get_previous_vertex(vs[-1])
         elif op == "neighbors":
             cell.calculate_neighbors()
+        elif op == "edges":
+            fsutil.call(cell.get_edges)           # a query: whatever it returns (or raises on a bare cell), it must not edit the cell
+        elif op == "vertices":
+            cell.get_cell_vertices()
         elif op == "reverse_inplace":
             cell.vertices.reverse()
         elif op == "reverse_assign":
